@@ -86,16 +86,18 @@ def _run(shard, nshards):
         evals, distinct, failures, samples, skipped = 0, set(), [], [], []
         idx = 0
         nets = NETS if tier == "thorough" else NETS[:-1]
-        for (rel, hours) in nets:
+        for ni, (rel, hours) in enumerate(nets):
             for with_rule in (False, True):
+              # the report step below, equal to and above the hydraulic step (the effective steps of a continued run are those of the uninterrupted one)
+              for (hyd_, rep_) in (((3600, 3600), (3600, 1800), (1800, 3600)) if (ni < 3 and not with_rule) else ((3600, 3600),)):
                 for pause_h in ((1, 3) if tier == "quick" else range(1, hours)):
                     idx += 1
                     if idx % nshards != shard:
                         continue
                     def mk():
                         wn = _builtin(rel[8:]) if rel.startswith("builtin:") else wntr.network.WaterNetworkModel(os.path.join(root, rel))
-                        wn.options.time.hydraulic_timestep = 3600
-                        wn.options.time.report_timestep = 3600
+                        wn.options.time.hydraulic_timestep = hyd_
+                        wn.options.time.report_timestep = rep_
                         wn.options.time.rule_timestep = 360
                         if with_rule:
                             _add_rule(wn)
@@ -120,7 +122,7 @@ def _run(shard, nshards):
                         failures.append(dict(net=rel, rule=with_rule, pause_h=pause_h, raised="a part reports non-convergence (error_code %r / %r) where the uninterrupted run converges" % (r1.error_code, r2.error_code)))
                         continue
                     evals += 1
-                    distinct.add((rel, with_rule, pause_h))
+                    distinct.add((rel, with_rule, pause_h, hyd_, rep_))
                     t1, t2, tf = list(r1.node["head"].index), list(r2.node["head"].index), list(full.node["head"].index)
                     ok_idx = (t1 + t2 == tf) and (not t2 or not t1 or t2[0] > t1[-1])
                     worst = 0.0
@@ -241,3 +243,47 @@ def _checker_update_case(old, new):
 CONTRACTS.append(Contract("wntr.sim.core:_ValveSourceChecker.update", P + ["C02"],
                           [_checker_update_case(o_, n_) for o_ in (_LS.Open, _LS.Closed, _LS.Active) for n_ in (_LS.Open, _LS.Closed, _LS.Active)],
                           note="enumerated status changes of one watched link beside another link of the same node pair (a networkx MultiGraph, executed natively)"))
+
+
+def _checker_init_case(cur, init):
+    """a checker built for a model that has already run (a continued simulation) starts from the CURRENT link statuses, not the initial ones"""
+    def build(cx):
+        from contracts._net import mk_node, mk_link
+        from wntr.network.elements import Junction, Pipe
+        a, b, c = mk_node(cx, Junction, "a"), mk_node(cx, Junction, "b"), mk_node(cx, Junction, "c")
+        l1 = mk_link(cx, Pipe, "L1", a, b, _user_status=cur, _internal_status=_LS.Active, _initial_status=init)
+        l2 = mk_link(cx, Pipe, "L2", b, c, _user_status=_LS.Open, _internal_status=_LS.Active, _initial_status=_LS.Open)
+        wn = _types.SimpleNamespace(nodes=lambda: [("a", a), ("b", b), ("c", c)], links=lambda: [("L1", l1), ("L2", l2)])
+        holder = []
+
+        def make(w):
+            ch = _core._ValveSourceChecker(w)
+            holder.append(ch)
+            act = _types.SimpleNamespace(target=lambda: (l1, "status"), subscribe=lambda obs: holder.append(("subscribed", obs)))
+            ctl = _types.SimpleNamespace(actions=lambda: [act])
+            ch.register_control(ctl)
+            return ch
+        cx.interp.interpret_always = tuple(cx.interp.interpret_always) + (make, _core._ValveSourceChecker)
+        import networkx as nx
+        for meth in ("add_nodes_from", "add_edges_from", "add_edge", "remove_edge", "add_node"):
+            f_ = getattr(nx.MultiGraph, meth)
+            cx.interp.models.register(f_, (lambda name: lambda i, a, k: getattr(a[0], name)(*a[1:], **k))(meth), trusted="networkx graph mutators run natively on the symbolic elements (identity-keyed)")
+        cx.target(make, wn)
+
+        def post(out):
+            if not out.returned:
+                return []
+            ch = out.value
+            g = cx.interp.getattr(ch, "graph")
+            prev = cx.interp.getattr(ch, "_previous_values")
+            return [("graph_holds_a_link_iff_its_current_status_is_not_closed", g.has_edge(a, b, l1) == (cur != _LS.Closed) and g.has_edge(b, c, l2)),
+                    ("every_node_is_in_the_graph", set(g.nodes()) == {a, b, c}),
+                    ("the_remembered_status_of_a_watched_link_is_its_current_status", any(k[0] is l1 and k[1] == "status" and v == cur for k, v in prev.items())),
+                    ("the_checker_subscribes_to_the_status_action", any(isinstance(x, tuple) and x[0] == "subscribed" for x in holder))]
+        cx.ensure(post)
+    return Case("current=%s,initial=%s" % (cur.name, init.name), build, crosscheck=False)
+
+
+CONTRACTS.append(Contract("wntr.sim.core:_ValveSourceChecker.__init__/register_control", P + ["C02"],
+                          [_checker_init_case(c_, i_) for c_ in (_LS.Open, _LS.Closed) for i_ in (_LS.Open, _LS.Closed)],
+                          note="a link whose current status differs from its initial status (the model was paused after a control acted)"))
